@@ -85,10 +85,14 @@ ProgCount2 == P("count2", "add",     "a", "keep", "count",  2, "warning",   "xr"
 ProgCount4 == P("count4", "keep",    "-", "keep", "count",  4, "none",      "xr",    "none",   "True",    "xr",    FALSE)
 ProgNever  == P("never",  "add",     "b", "keep", "count",  9, "normal",    "xr",    "own",    "True",    "xr",    FALSE)
 ProgRelabel == P("relabel", "add",    "b", "keep", "relabel", 0, "none",     "xr",    "none",   "True",    "xr",    FALSE)
+\* widen: the requirement first selects with two labels (grp=g, sub=1), and with the first of them only once something was
+\* supplied - the new selector's labels are a strict SUBSET of the previous one's, and it matches more
+\* (added after the seeded change C04-m8 - "nothing new in the selector, so nothing changed" - was missed)
+ProgWiden  == P("widen",   "add",    "b", "keep", "widen",   0, "none",     "xr",    "none",   "True",    "xr",    FALSE)
 ProgFatal  == P("fatal",  "add",     "b", "set",  "name",   0, "warnfatal", "claim", "own",    "False",   "xr",    FALSE)
 
 AllProgs == {ProgPass, ProgAddA, ProgAddB, ProgDropA, ProgRenAC, ProgMutate, ProgClear, ProgChase, ProgGrow,
-             ProgCount2, ProgCount4, ProgNever, ProgFatal, ProgRelabel}
+             ProgCount2, ProgCount4, ProgNever, ProgFatal, ProgRelabel, ProgWiden}
 
 \* the program a call ran: looked up by the name the function found in its input
 ProgFor(in, name) ==
@@ -102,7 +106,11 @@ ProgFor(in, name) ==
 \* (and so does an object e1 of another kind with label grp=g, which no selector may ever match).
 Objs(in) == Range(in.extras) \cup {"e9"}
 LabelOf(o) == IF o \in {"e1", "e2"} THEN "g" ELSE "h"
-Match(sel, objs) == IF sel.t = "name" THEN {o \in objs : o = sel.v} ELSE {o \in objs : LabelOf(o) = sel.v}
+SubOf(o) == IF o = "e1" THEN "1" ELSE "2"        \* a second label, sub: e1 has sub=1, every other object sub=2
+\* a label selector value "g" stands for {grp: g}, "g+1" for {grp: g, sub: 1}
+Match(sel, objs) == IF sel.t = "name" THEN {o \in objs : o = sel.v}
+                    ELSE IF sel.v = "g+1" THEN {o \in objs : LabelOf(o) = "g" /\ SubOf(o) = "1"}
+                    ELSE {o \in objs : LabelOf(o) = sel.v}
 \* what ExistingExtraResourcesFetcher must supply for a set of requirements
 Fetch(reqs, objs) == {[k |-> r.k, names |-> Match(r, objs)] : r \in reqs}
 
@@ -152,6 +160,7 @@ ReqOp(p, rq) ==
     [] p.req = "grow"   -> {Sel("k1", "labels", "g")} \cup {Sel("n-" \o o, "name", o) : o \in NamesGiven(rq.extra, "k1")}
     \* relabel: the same requirement name, kind and apiVersion, but other match labels once something was supplied for it
     [] p.req = "relabel" -> {Sel("k1", "labels", IF \E x \in rq.extra : x.k = "k1" THEN "g" ELSE "h")}
+    [] p.req = "widen"  -> {Sel("k1", "labels", IF \E x \in rq.extra : x.k = "k1" THEN "g" ELSE "g+1")}
     [] p.req = "count"  -> {Sel("k1", "name", "x" \o ToString(IF Count(rq) < p.n THEN Count(rq) ELSE p.n))}
     [] OTHER            -> {}            \* none: no requirements at all
 
